@@ -5,7 +5,7 @@
 (* A result record is [k |-> "ok" | "exc", v |-> runs, t |-> exception    *)
 (* class, n |-> len(result), s |-> result.s]                              *)
 (***************************************************************************)
-EXTENDS ColorStr, FmtImpl, Spelling, Parse, Scan
+EXTENDS ColorStr, FmtImpl, Spelling, Parse, Scan, Width, Wrap
 
 V(clause, exact) == <<IF clause = "ok" THEN "ok" ELSE "fail", IF clause = "ok" THEN "" ELSE clause,
                       IF exact THEN "exact" ELSE "drift">>
@@ -136,6 +136,71 @@ JudgeAny(e) ==
   ELSE IF ~Consistent(e.res) THEN V("Any.LenText", FALSE)
   ELSE V("ok", TRUE)
 
+(* ---------------------------------------------------------------- C10 *)
+JudgeWidth(e) ==
+  IF e.k # "ok" THEN V("Width.Raised", FALSE)
+  ELSE IF e.n # AbsWidth(Cells(e.f)) THEN V("Width.Columns", FALSE) ELSE V("ok", TRUE)
+JudgeWidthAt(e) ==
+  IF e.k # "ok" THEN V("WidthAt.Raised", FALSE)
+  ELSE IF e.n # AbsWidthAtOffset(Cells(e.f), e.off) THEN V("WidthAt.Columns", FALSE) ELSE V("ok", TRUE)
+JudgeWslice(e) ==
+  LET cs == Cells(e.f)
+  IN IF e.res.k # "ok" THEN V("Wslice.Raised", FALSE)
+     ELSE LET rc == Cells(e.res.v)
+          IN IF Cols(rc) # AbsWsliceCols(cs, e.a, e.b) THEN V("Wslice.Columns", FALSE)
+             ELSE IF ~IsSubseq(ZeroCells(rc), ZeroCells(cs)) THEN V("Wslice.ZeroWidthInvented", FALSE)
+             ELSE IF ~Consistent(e.res) THEN V("Wslice.LenText", FALSE)
+             ELSE V("ok", TRUE)
+
+(* ---------------------------------------------------------------- C11 *)
+JudgeWsplit(e) ==
+  IF e.res.k # "ok" THEN V("Wsplit.Raised", FALSE)
+  ELSE LET lines == [j \in 1..Len(e.res.vs) |-> Cells(e.res.vs[j])]
+           c == WrapVerdict(lines, Cells(e.f), e.cols)
+       IN IF c # "ok" THEN V("Wsplit." \o c, FALSE) ELSE V("ok", TRUE)
+
+(* ---------------------------------------------------------------- C16 *)
+JudgeLinesplit(e) ==
+  IF e.res.k # "ok" THEN V("Linesplit.Raised", FALSE)
+  ELSE LET c == LinesplitVerdict([j \in 1..Len(e.res.vs) |-> Cells(e.res.vs[j])], Cells(e.f.v), e.cols)
+       IN IF c # "ok" THEN V("Linesplit." \o c, FALSE) ELSE V("ok", TRUE)
+
+(* ---------------------------------------------------------------- C15 *)
+\* empty runs' attributes count as attributes the original had (weakest reading)
+EmptyRunAtts(f) == LET es == SelectSeq(f, LAMBDA r : r[1] = <<>>) IN [k \in 1..Len(es) |-> Disp(es[k][2])]
+PiecesVerdict(pfx, res, f, ranges, ref) ==
+  IF res.k # "ok" THEN V(pfx \o ".Raised", FALSE)
+  ELSE IF [j \in 1..Len(res.vs) |-> Text(res.vs[j])] # ref THEN V(pfx \o ".TextAgreesWithStr", FALSE)
+  ELSE IF Len(ranges) # Len(ref) \/ [j \in 1..Len(ranges) |-> TextOfCells(Ranges(Cells(f), ranges)[j])] # ref THEN V(pfx \o ".MachinerySpecVsPython", FALSE)
+  ELSE IF [j \in 1..Len(res.vs) |-> Cells(res.vs[j])] # Ranges(Cells(f), ranges) THEN V(pfx \o ".PieceFormatting", FALSE)
+  ELSE V("ok", TRUE)
+JudgeSplit(e) ==
+  PiecesVerdict("Split", e.res, e.f, IF e.regex = 1 THEN e.ranges ELSE SplitRanges(Text(e.f), e.sep), e.ref)
+JudgeSplitlines(e) == PiecesVerdict("Splitlines", e.res, e.f, SplitlinesRanges(Text(e.f), e.keepends), e.ref)
+
+JudgeJust(e) ==
+  LET cs == Cells(e.f)
+  IN IF e.res.k # "ok" THEN V("Just.Raised", FALSE)
+     ELSE IF Text(e.res.v) # e.ref THEN V("Just.TextAgreesWithStr", FALSE)
+     ELSE IF ~NoInvented(Cells(e.res.v), cs, EmptyRunAtts(e.f)) THEN V("Just.InventedFormatting", FALSE)
+     ELSE IF ~Consistent(e.res) THEN V("Just.LenText", FALSE)
+     ELSE V("ok", TRUE)
+
+\* delegated str methods: text results carry exactly the formatting shared by all characters;
+\* list results likewise per element; other answers equal str's answer (both logged as repr text)
+JudgeDelegated(e) ==
+  LET cs == Cells(e.f)
+      sh == SharedDisp(cs)
+      okcells(rc) == /\ NoInvented(rc, cs, EmptyRunAtts(e.f))
+                     /\ (cs # <<>> => \A k \in 1..Len(rc) : \A i \in AttIdx : sh[i] # 0 => rc[k][2][i] = sh[i])
+  IN IF e.kind = "exc" THEN (IF e.refkind = "exc" THEN V("ok", TRUE) ELSE V("Delegated.Raised", FALSE))
+     ELSE IF e.refkind = "exc" THEN V("Delegated.ShouldRaise", FALSE)
+     ELSE IF e.kind # e.refkind THEN V("Delegated.AnswerKind", FALSE)
+     ELSE IF e.kind = "other" THEN (IF e.got = e.ref THEN V("ok", TRUE) ELSE V("Delegated.AnswerAgreesWithStr", FALSE))
+     ELSE IF [j \in 1..Len(e.vs) |-> Text(e.vs[j])] # e.reftexts THEN V("Delegated.TextAgreesWithStr", FALSE)
+     ELSE IF \E j \in 1..Len(e.vs) : ~okcells(Cells(e.vs[j])) THEN V("Delegated.SharedFormatting", FALSE)
+     ELSE V("ok", TRUE)
+
 Judge(e) ==
   CASE e.op = "str" -> JudgeStr(e)
     [] e.op = "slice" -> JudgeSlice(e)
@@ -152,6 +217,15 @@ Judge(e) ==
     [] e.op = "roundtrip" -> JudgeRoundTrip(e)
     [] e.op = "parse" -> JudgeParse(e)
     [] e.op = "any" -> JudgeAny(e)
+    [] e.op = "width" -> JudgeWidth(e)
+    [] e.op = "width_at" -> JudgeWidthAt(e)
+    [] e.op = "wslice" -> JudgeWslice(e)
+    [] e.op = "wsplit" -> JudgeWsplit(e)
+    [] e.op = "linesplit" -> JudgeLinesplit(e)
+    [] e.op = "split" -> JudgeSplit(e)
+    [] e.op = "splitlines" -> JudgeSplitlines(e)
+    [] e.op = "just" -> JudgeJust(e)
+    [] e.op = "delegated" -> JudgeDelegated(e)
     [] e.op = "eq" -> JudgeEq(e)
     [] e.op = "repr" -> JudgeRepr(e)
     [] OTHER -> <<"fail", "UnknownOp", "drift">>
